@@ -292,6 +292,8 @@ class Translator:
             for tn in spec:
                 t = [x[0] for x in threads].index(tn)
                 L.append(ctx(t, "1000000u"))
+                # run alone with an unlimited budget the thread must finish: nothing it needs may depend on a suspended thread
+                L.append(f'  VP_CHECK({tn}_done, "solo run: thread {tn} cannot finish although it is the only one scheduled (it waits for a suspended thread)");')
         L.append("  vp_cur = 0;")
         L.append(f"  int vp_all_done = ({alld});")
         if NT:
